@@ -435,8 +435,13 @@ def chain_pairs(qualname, limit=400, seed=0):
         try:
             call_real(qualname, dict(args))
             real = str(args["self"])
-            chain = str(specrt.eval_clause(c["value"], dict(args)))
         except BaseException:
+            continue
+        try:
+            chain = str(specrt.eval_clause(c["value"], dict(args)))
+        except BaseException as e:
+            # the constructor returns but the chain its contract names cannot even be built
+            out.append({"args": {nm: lbl for nm, (lbl, v) in zip(names, combo)}, "real": real, "chain_error": f"{type(e).__name__}: {e}"[:200]})
             continue
         n_ok += 1
         if (real, chain) in seen:
